@@ -425,9 +425,15 @@ def unparse_code(expr, mode: str):
         args = expr['args']
         if expr.get('prim') == 'PUSH' and len(args) == 2:
             value = MichelsonType.match(args[0]).from_micheline_value(args[1])
-            args = [args[0], value.to_micheline_value(mode=mode)]
+            args = [unparse_code(args[0], mode), value.to_micheline_value(mode=mode)]
         else:
             args = [unparse_code(arg, mode) for arg in args]
+        if expr.get('prim') == 'pair':
+            # types are unparsed with right combs folded: `pair a (pair b c)` becomes `pair a b c`
+            # (an annotated inner pair is kept, its annotation would be lost)
+            last = args[-1]
+            if isinstance(last, dict) and last.get('prim') == 'pair' and not last.get('annots'):
+                args = args[:-1] + last['args']
         return {**expr, 'args': args}
     return expr
 
